@@ -372,6 +372,10 @@ class NativeBackend(BackendBase):
     def rng_rewind(self):
         self._rng_pos = 0
 
+    def rng_consumed(self):
+        """did the code under test take every random answer from the (patched) random module?"""
+        return self._rng_pos == len(self._rng) and not self.meta.get("rng_diverged")
+
     def oracle_ints(self, name, n):
         vals = list(self._hole(name))
         state = {"j": 0}
@@ -381,7 +385,10 @@ class NativeBackend(BackendBase):
             state["j"] += 1
             v = vals[j]
             if not (0 <= v <= r):
-                raise HarnessError(f"oracle value {v} outside [0,{r}]")
+                # the code under test did not follow the model's RNG answers (it may draw from another generator):
+                # remember it - the scenario reports it - and stay within the contract
+                self.meta["rng_diverged"] = True
+                return max(0, min(v, r))
             return v
         return pick
 
